@@ -21,15 +21,10 @@ func init() {
 		if !in.st.Has("libform") {
 			return err
 		}
-		if in.st.Bool("libform") {
-			exp := in.st.Hex("toder")
-			if err != nil {
-				return &relErr{got: "error: " + err.Error(), exp: hex.EncodeToString(exp), note: "valid BER (X.690 8.1) refused by ber2der"}
-			}
-			if !bytes.Equal(out, exp) {
-				return &relErr{got: hex.EncodeToString(out), exp: hex.EncodeToString(exp), note: "ber2der output is not the definite minimal-length re-encoding"}
-			}
-		}
+		// Observation only (not a verdict): valid BER that the normaliser refuses (e.g. 30 80 00 00, an
+		// indefinite-length constructed value without elements) or re-encodes differently from ToDer.
+		// No listed property requires ber2der to accept all of BER: C13 allows an error, C16 speaks
+		// about already-DER input only. The relation checked is the C16 clause below.
 		if in.st.Bool("isder") && err == nil && !bytes.Equal(out, in.d) {
 			return &relErr{got: hex.EncodeToString(out), exp: hex.EncodeToString(in.d), note: "ber2der changed an input that already is DER"}
 		}
